@@ -16,10 +16,14 @@ over an abstract bank ledger.  Core only.
 * Synthetic locks are not modelled (no lock has one): `HasAnySyntheticLockups` is `false`, and
   `GetSyntheticLockupByUnderlyingLockId` returns the zero value, so that `AddTokensToLockByID` performs
   its stray `Increase` on the accumulation store of denom `""` at key 0 (reproduced, DESIGN F6).
-* CL share denominations (burned instead of returned on unlock) are not modelled.
+* CL share denominations (`cl/pool/<id>`, prefix regenerated into `Gen.Lockup`): the shares are minted into the
+  module account by the concentrated-liquidity keeper, which then calls `CreateLockNoSend` (`clLock`; the CL
+  arithmetic that fixes the number of shares is outside this model: the amount is an input of the operation);
+  on withdrawal `unlockMaturedLockInternalLogic` burns them instead of paying them out (`burnCoinFromModule`).
 * An error / panic of the Go code is `none`; the caller (`step`) then leaves the state unchanged
   (the transaction's cache context is dropped).
 -/
+import OsmoVerif.Gen.Lockup
 namespace OsmoVerif.Lockup
 
 abbrev Denom := String
@@ -109,6 +113,16 @@ def Coins.sortedStrict : Coins → Bool
 /-- `Coins.IsValid`: denominations valid (here: non-empty), amounts positive, strictly sorted. -/
 def Coins.valid (a : Coins) : Bool := a.all (fun c => c.1 ≠ "" ∧ 0 < c.2) && a.sortedStrict
 
+/-! ## CL share denominations -/
+
+def isPrefixL : List Char → List Char → Bool
+  | [], _ => true
+  | _ :: _, [] => false
+  | a :: s, b :: t => a = b && isPrefixL s t
+
+/-- `strings.HasPrefix(denom, cltypes.ConcentratedLiquidityTokenPrefix)`. -/
+def isCLDenom (dn : Denom) : Bool := isPrefixL Gen.Lockup.ConcentratedLiquidityTokenPrefix.toList dn.toList
+
 /-! ## bank -/
 
 def sendCoinToModule (s : State) (o : Addr) (dn : Denom) (a : Int) : Option State :=
@@ -120,6 +134,17 @@ def sendCoinFromModule (s : State) (o : Addr) (dn : Denom) (a : Int) : Option St
   if dn = "" ∨ a ≤ 0 then none
   else if aget s.modBal dn < a then none
   else some { s with bal := aadd s.bal (o, dn) a, modBal := aadd s.modBal dn (-a) }
+
+/-- `MintCoins(lockup, [coin])`. -/
+def mintCoinToModule (s : State) (dn : Denom) (a : Int) : Option State :=
+  if dn = "" ∨ a ≤ 0 then none
+  else some { s with modBal := aadd s.modBal dn a }
+
+/-- `BurnCoins(lockup, [coin])`. -/
+def burnCoinFromModule (s : State) (dn : Denom) (a : Int) : Option State :=
+  if dn = "" ∨ a ≤ 0 then none
+  else if aget s.modBal dn < a then none
+  else some { s with modBal := aadd s.modBal dn (-a) }
 
 /-- `SendCoinsFromAccountToModule(owner, lockup, coins)`. -/
 def sendToModule (s : State) (o : Addr) (c : Coins) : Option State :=
@@ -207,14 +232,18 @@ def accumQuery (s : State) (dn : Denom) (d : Int) : Int :=
 def lockInternal (s : State) (l : Lock) (tokens : Coins) : State :=
   accIncreaseCoins (setLock s l) l.duration tokens
 
-/-- `CreateLock`. -/
-def createLock (s : State) (owner : Addr) (coins : Coins) (duration : Int) : Option (State × Nat) := do
-  let s1 ← sendToModule s owner coins
+/-- `CreateLockNoSend`: the coins are already in the module account. -/
+def createLockNoSend (s1 : State) (owner : Addr) (coins : Coins) (duration : Int) : Option (State × Nat) := do
   let id := s1.lastLockId + 1
   let l : Lock := ⟨id, owner, duration, none, coins, ""⟩
   let s2 := lockInternal s1 l coins
   let s3 ← addLockRefs s2 l
   some ({ s3 with lastLockId := id }, id)
+
+/-- `CreateLock`. -/
+def createLock (s : State) (owner : Addr) (coins : Coins) (duration : Int) : Option (State × Nat) := do
+  let s1 ← sendToModule s owner coins
+  createLockNoSend s1 owner coins duration
 
 /-- `AddTokensToLockByID` (no synthetic lock: the trailing `Increase` hits denom `""`, key 0). -/
 def addTokensToLockByID (s : State) (id : Nat) (owner : Addr) (dn : Denom) (a : Int) : Option State := do
@@ -308,9 +337,16 @@ def msgBeginUnlockingAll (t : Int) (s : State) (owner : Addr) : Option State :=
   let ids := idsWhere s (fun k => match k with | ⟨false, IdxKey.ownerDur o _⟩ => o == owner | _ => false)
   ids.foldlM (fun s id => (beginUnlock t s id []).map (·.1)) s
 
-/-- `unlockMaturedLockInternalLogic`. -/
+/-- the loop of `unlockMaturedLockInternalLogic` over the lock's coins: CL shares are burned one by one. -/
+def burnCLShares (s : State) (c : Coins) : Option State :=
+  c.foldlM (fun s c => if isCLDenom c.1 then burnCoinFromModule s c.1 c.2 else some s) s
+
+/-- `unlockMaturedLockInternalLogic`: CL shares are burned, everything else (`finalCoinsToSendBackToUser`) is sent
+to the owner; the accumulation store is decreased by ALL of the lock's coins. -/
 def unlockInternal (s : State) (l : Lock) : Option State := do
-  let s1 ← (if l.coins.isEmpty then some s else sendFromModule s l.owner l.coins)
+  let s0 ← burnCLShares s l.coins
+  let back := l.coins.filter (fun c => !isCLDenom c.1)
+  let s1 ← (if back.isEmpty then some s0 else sendFromModule s0 l.owner back)
   let s2 := deleteLock s1 l.id
   let s3 := deleteLockRefs s2 true l
   some (accDecreaseCoins s3 l.duration l.coins)
@@ -389,6 +425,19 @@ def msgForceUnlock (t : Int) (s : State) (owner : Addr) (id : Nat) (coins : Coin
       | some (s1, nl) => forceUnlock t s1 nl
     else forceUnlock t s l
 
+/-- `ConcentratedLiquidityKeeper.CreateFullRangePositionLocked` / `…Unlocking` as far as x/lockup is concerned
+(`mintSharesAndLock`): `shares` of the pool's share denomination are minted into the lockup module account and
+locked with `CreateLockNoSend`; the `…Unlocking` variant then calls `BeginForceUnlock(lockID, shares)`.
+Callers' contract: the denomination is a CL share denomination, the amount (the position's liquidity, truncated) and
+the duration are positive. -/
+def clLock (t : Int) (s : State) (owner : Addr) (dn : Denom) (shares : Int) (duration : Int) (unlocking : Bool) :
+    Option (State × Nat) :=
+  if !isCLDenom dn then none else
+  if duration ≤ 0 then none else
+  (mintCoinToModule s dn shares).bind fun s1 =>
+  (createLockNoSend s1 owner [(dn, shares)] duration).bind fun p =>
+  if unlocking then beginUnlock t p.1 p.2 [(dn, shares)] else some p
+
 /-! ## histories -/
 
 inductive Op where
@@ -403,6 +452,8 @@ inductive Op where
   | withdrawMatured (num : Nat)
   | setRewardReceiver (owner : Addr) (id : Nat) (recv : Addr)
   | forceUnlock (owner : Addr) (id : Nat) (coins : Coins)
+  /-- the CL keeper locks freshly minted shares of a full-range position (see `clLock`). -/
+  | clLock (owner : Addr) (dn : Denom) (shares : Int) (duration : Int) (unlocking : Bool)
   deriving Repr
 
 /-- the caller contract of `Op.addToLock`. -/
@@ -423,6 +474,7 @@ def applyOp (t : Int) (s : State) : Op → Option (State × Nat)
   | .withdrawMatured n => (withdrawMaturedLocks t s n).map (·, 0)
   | .setRewardReceiver o id r => (setRewardReceiver s id o r).map (·, 0)
   | .forceUnlock o id c => (msgForceUnlock t s o id c).map (·, 0)
+  | .clLock o dn a d u => clLock t s o dn a d u
 
 def step (t : Int) (s : State) (op : Op) : State × Option Nat :=
   match applyOp t s op with
